@@ -566,6 +566,35 @@ func c20prop(ev *evid.Rec) func(rt *rapid.T) {
 			if got2 != fuState[got] {
 				rt.Fatalf("%s: %s: after the restart and one more update (%s) the stores do not hold that update applied to what the restart had loaded\n--- expected\n%s--- found\n%s", desc, where, opsDesc([]c20op{fu}), clip(fuState[got]), clip(got2))
 			}
+			// ... and the accounts the interrupted update was about can be edited in place: an acknowledged edit is what the
+			// next restart loads, whatever the crash left lying around; and no other account pays for it
+			if store == "acct" {
+				seenEd := map[string]bool{}
+				for _, l := range []string{ops[n-1].Login, ops[n-1].NewLogin} {
+					if l == "" || l == "admin" || seenEd[l] || !strings.Contains(got2, fmt.Sprintf("ACCOUNT login=%q ", l)) {
+						continue
+					}
+					seenEd[l] = true
+					before, _ := c20dump(dj)
+					ed := c20op{Store: "acct", Op: "update", Login: l, Name: "edited after the crash", Access: []byte{0x20, 0, 0, 0, 0, 0, 0, 0}}
+					out, _ := exec.Command(helper, dj, js(ed)).CombinedOutput()
+					after, err := c20dump(dj)
+					if err != nil {
+						rt.Fatalf("%s: %s: after the restart and an edit of %q %v\nfiles: %s", desc, where, l, err, lsDir(dj))
+					}
+					if !bytes.Contains(out, []byte("ACK")) {
+						rt.Fatalf("%s: %s: after the restart the account %q, which the restart had loaded, cannot be edited: %s\nfiles: %s", desc, where, l, bytes.TrimSpace(out), lsDir(dj))
+					}
+					if !strings.Contains(after, fmt.Sprintf("ACCOUNT login=%q name=%q ", l, "edited after the crash")) {
+						rt.Fatalf("%s: %s: after the restart an edit of account %q was acknowledged, but the next restart does not load the edited account\n--- loaded\n%s\nfiles: %s", desc, where, l, clip(after), lsDir(dj))
+					}
+					for _, line := range strings.Split(before, "\n") {
+						if strings.HasPrefix(line, "ACCOUNT ") && !strings.HasPrefix(line, fmt.Sprintf("ACCOUNT login=%q ", l)) && !strings.Contains(after, line) {
+							rt.Fatalf("%s: %s: after the restart the edit of account %q changed another account: %s", desc, where, l, line)
+						}
+					}
+				}
+			}
 			// ... and the accounts the interrupted update was about can still be removed: an acknowledged deletion is a change
 			// like any other (gone after the next restart), a refused one changes nothing
 			if store == "acct" {
